@@ -436,4 +436,117 @@ theorem isotropify_matmul (d : ℕ) (anis : List ℝ) (D : Mat ℝ) {i : ℕ} (h
   · intro k _ hk; rw [isotropify_real, if_neg (Ne.symm hk)]; simp
   · intro h; exact absurd (Finset.mem_range.mpr hi) h
 
+/-! ### `standard_bins`: units
+
+`geo_scale = R > 0` enters the lat-lon branch only as a common factor of every length: the automatic cut-off
+computed on the sphere of radius `R` is `R` times the one computed on the unit sphere, and a given `max_dist`
+is used as it is.  Hence the same call in another unit gives the same bins, scaled. -/
+
+theorem minList_scale {R : ℝ} (hR : 0 < R) (xs : List ℝ) (d : ℝ) :
+    minList (xs.map (R * ·)) (R * d) = R * minList xs d := by
+  unfold minList
+  induction xs generalizing d with
+  | nil => rfl
+  | cons b xs ih =>
+    simp only [List.map_cons, List.foldl_cons]
+    have : (if R * b < R * d then R * b else R * d) = R * (if b < d then b else d) := by
+      by_cases h : b < d
+      · rw [if_pos h, if_pos (mul_lt_mul_of_pos_left h hR)]
+      · rw [if_neg h, if_neg (fun h' => h (lt_of_mul_lt_mul_left h' hR.le))]
+    rw [this, ih]
+
+theorem maxList_scale {R : ℝ} (hR : 0 < R) (xs : List ℝ) (d : ℝ) :
+    maxList (xs.map (R * ·)) (R * d) = R * maxList xs d := by
+  unfold maxList
+  induction xs generalizing d with
+  | nil => rfl
+  | cons b xs ih =>
+    simp only [List.map_cons, List.foldl_cons]
+    have : (if R * d < R * b then R * b else R * d) = R * (if d < b then b else d) := by
+      by_cases h : d < b
+      · rw [if_pos h, if_pos (mul_lt_mul_of_pos_left h hR)]
+      · rw [if_neg h, if_neg (fun h' => h (lt_of_mul_lt_mul_left h' hR.le))]
+    rw [this, ih]
+
+theorem axisExt_scale {R : ℝ} (hR : 0 < R) (xs : List ℝ) : axisExt (xs.map (R * ·)) = R * axisExt xs := by
+  have hh : (xs.map (R * ·)).headD ((0:ℕ):ℝ) = R * xs.headD ((0:ℕ):ℝ) := by
+    cases xs <;> simp
+  simp only [axisExt, hh, minList_scale hR, maxList_scale hR]
+  ring
+
+theorem foldl_add_scale (c : ℝ) (l : List ℝ) (a : ℝ) :
+    (l.map (c * ·)).foldl (fun a b => a + b) (c * a) = c * l.foldl (fun a b => a + b) a := by
+  induction l generalizing a with
+  | nil => rfl
+  | cons b l ih =>
+    simp only [List.map_cons, List.foldl_cons]
+    rw [← mul_add, ih]
+
+theorem boxDiam_scale {R : ℝ} (hR : 0 < R) (axes : List (List ℝ)) :
+    boxDiam (axes.map fun xs => xs.map (R * ·)) = R * boxDiam axes := by
+  unfold boxDiam
+  simp only [sqrt_real, List.map_map]
+  have h1 : (fun xs : List ℝ => axisExt xs * axisExt xs) ∘ (fun xs : List ℝ => xs.map (R * ·))
+      = (fun x : ℝ => (R * R) * x) ∘ (fun xs : List ℝ => axisExt xs * axisExt xs) := by
+    funext xs
+    simp only [Function.comp, axisExt_scale hR]
+    ring
+  rw [h1, ← List.map_map]
+  have key := foldl_add_scale (R * R) (axes.map fun xs => axisExt xs * axisExt xs) 0
+  rw [mul_zero] at key
+  simp only [Nat.cast_zero]
+  rw [key, Real.sqrt_mul (mul_self_nonneg R), Real.sqrt_mul_self hR.le]
+
+theorem latlon2pos_scale (R lat lon : ℝ) :
+    latlon2pos R lat lon = ⟨R * (latlon2pos 1 lat lon).x, R * (latlon2pos 1 lat lon).y, R * (latlon2pos 1 lat lon).z⟩ := by
+  rw [latlon2pos_real, latlon2pos_real]
+  simp only [P3.mk.injEq]
+  refine ⟨by ring, by ring, by ring⟩
+
+theorem sphereAxes_scale (R : ℝ) (axes : List (List ℝ)) :
+    sphereAxes R axes = (sphereAxes 1 axes).map fun xs => xs.map (R * ·) := by
+  simp only [sphereAxes, List.map_map, List.map_cons, List.map_nil]
+  refine congrArg₂ _ ?_ (congrArg₂ _ ?_ (congrArg₂ _ ?_ rfl)) <;>
+  · refine List.map_congr_left fun q _ => ?_
+    simp only [Function.comp]
+    rw [latlon2pos_scale]
+
+theorem c2g_scale {R : ℝ} (hR : 0 < R) (d : ℝ) :
+    chordal_to_great_circle R (R * d) = R * chordal_to_great_circle 1 d := by
+  simp only [chordal_to_great_circle, asin_real]
+  have : R * d / (((2:ℕ):ℝ) * R) = d / (((2:ℕ):ℝ) * 1) := by
+    push_cast; field_simp
+  rw [this]; ring
+
+/-- the automatic cut-off of the lat-lon branch is in the unit of `geo_scale` -/
+theorem stdDiam_latlon_scale {R : ℝ} (hR : 0 < R) (axes : List (List ℝ)) :
+    stdDiam true R axes = R * stdDiam true 1 axes := by
+  simp only [stdDiam, if_true]
+  rw [sphereAxes_scale, boxDiam_scale hR, c2g_scale hR]
+
+theorem linspace0_scale (R m : ℝ) (n : ℕ) : linspace0 (R * m) n = (linspace0 m n).map (R * ·) := by
+  unfold linspace0
+  by_cases h : n = 0
+  · simp [h]
+  · simp only [h, if_false, List.map_map]
+    refine List.map_congr_left fun i _ => ?_
+    simp only [Function.comp]
+    by_cases hi : i = n
+    · simp [hi]
+    · simp only [hi, if_false]; ring
+
+/-- **unit change of `standard_bins`**: with `geo_scale = R` and the cut-off given in that unit (`R·m`) the edges
+    are `R` times the edges of the radian call with cut-off `m`; likewise when the cut-off is derived from the points -/
+theorem standardBins_geo_scale {R : ℝ} (hR : 0 < R) (pos : Option (List (List ℝ))) (binNo : Option ℕ) (maxDist : Option ℝ) :
+    standardBins true R pos binNo (maxDist.map (R * ·))
+      = (standardBins true 1 pos binNo maxDist).map (fun e => e.map (R * ·)) := by
+  cases binNo <;> cases maxDist <;> cases pos <;>
+    simp only [standardBins, Option.map_some, Option.map_none, Except.map, linspace0_scale,
+      stdDiam_latlon_scale hR, mul_div_assoc]
+
+/-- the old single-purpose model of the fully automatic lat-lon cut-off is the general one -/
+theorem stdMaxDist_eq (R : ℝ) (lats lons : List ℝ) :
+    stdMaxDist R lats lons = stdDiam true R [lats, lons] / ((3:ℕ):ℝ) := by
+  simp [stdMaxDist, stdDiam, sphereAxes, boxDiam, axisExt]
+
 end GSV.Model.LatLon
